@@ -159,9 +159,66 @@ def label_call_sites(fn):
             if subj.id in sites:
                 raise ExtractionError("Labels._set_fields: more than one regex call on %s" % subj.id)
             sites[subj.id] = (kind, pre, suf)
+    if not sites:
+        # the regular expression is applied somewhere else (a helper, a normalised one-element list ...): the running class says how
+        return label_sites_by_probe()
     if set(sites) != {"i", "v"}:
         raise ExtractionError("Labels._set_fields: expected one regex call for list elements and one for scalars, got %s" % sorted(sites))
     return sites
+
+
+def label_sites_by_probe():
+    """How Labels._set_fields applies VALIDATORS[k][0] to a scalar ('v') and to a list element ('i'), decided on the running class
+    when no `re` call is found in the method itself (validation moved into helpers): over every validated field and the candidates
+    ex, ex+'\\n', ex+' x', 'x '+ex, '\\n'+ex, ex+'\\n\\n', '' the accept/reject outcome must be exactly that of re.fullmatch(R, c), or exactly
+    that of re.match('^'+R+'$', c) (which lets a trailing newline through) - and the candidates must tell the two apart."""
+    import importlib
+    import re
+    try:
+        cl = importlib.import_module("fim.slivers.capacities_labels")
+        Labels, LE = cl.Labels, cl.LabelException
+    except Exception as e:
+        raise ExtractionError("Labels._set_fields: no regex call in the method and the class cannot be imported: %s" % e)
+    sems = {("fullmatch", "", ""): lambda R, c: re.fullmatch(R, c) is not None,
+            ("match", "^", "$"): lambda R, c: re.match("^" + R + "$", c) is not None}
+
+    def accepted(k, arg):
+        try:
+            Labels()._set_fields(**{k: arg})
+            return True
+        except LE:
+            return False
+        except Exception:
+            return None
+    out = {}
+    for form in ("v", "i"):
+        alive, told_apart = set(sems), False
+        for k, (R, exs) in sorted(Labels.VALIDATORS.items()):
+            if k not in Labels().__dict__:
+                continue
+            ex = exs.split("'")[1] if "'" in exs else exs
+            if accepted(k, ex) is not True:
+                continue
+            lam = Labels.LAMBDA_VALIDATORS.get(k)
+            for c in (ex, ex + "\n", ex + " x", "x " + ex, "\n" + ex, ex + "\n\n", ""):
+                try:
+                    lam_ok = lam is None or lam[0](c) is not False
+                except Exception:
+                    continue
+                acc = accepted(k, c if form == "v" else [ex, c])
+                if acc is None:
+                    continue
+                verdicts = {name: f(R, c) for name, f in sems.items()}
+                if len(set(verdicts.values())) > 1:
+                    told_apart = True
+                for name, vd in verdicts.items():
+                    if acc != (vd and lam_ok):
+                        alive.discard(name)
+        if len(alive) != 1 or not told_apart:
+            raise ExtractionError("Labels._set_fields: no regex call in the method and its behaviour on %s is neither fullmatch nor "
+                                  "match('^'+R+'$') (%s)" % ("scalars" if form == "v" else "list elements", sorted(alive)))
+        out[form] = next(iter(alive))
+    return out
 
 
 # ---------------------------------------------------------------- lambdas
